@@ -43,6 +43,8 @@ def schema_id(s: pa.Schema) -> int:
 
 
 def body_of(b: pa.RecordBatch) -> list[int]:
+    if b.num_rows == 0:
+        return []
     if b.num_columns == 1 and b.num_rows <= 6:
         vals = b.column(0).to_pylist()
         if all(isinstance(x, int) and 0 <= x < 2**31 for x in vals):
@@ -104,15 +106,15 @@ def c_upload(u: Any) -> str:
 
 def c_outcome(o: Any) -> str:
     if o[0] == "none":
-        return "ONone"
+        return "None"
     if o[0] == "pass":
-        return f"(OPass {c_batch(o[1])})"
+        return f"(Some (OPass {c_batch(o[1])}))"
     if o[0] == "deliver":
-        return f"(ODeliver {c_batch(o[1])})"
+        return f"(Some (ODeliver {c_batch(o[1])}))"
     code = o[1]
-    names = ["EShaMismatch", "ELoop", "ERpc", "EBadLog", "ENoData", "EMulti", "ESchema", "EFetchFatal", "EExhausted"]
+    names = {0: "EShaMismatch", 1: "ELoop", 2: "ERpc", 4: "ENoData", 5: "EMulti", 6: "ESchema", 7: "EFetchFatal", 8: "EExhausted"}
     # an error class outside the model can never equal the model's answer: render as a pass of an impossible batch
-    return f"(OFail {names[code]})" if 0 <= code < len(names) else "(OPass (mkBatch 987654 0 [] None))"
+    return f"(Some (OFail {names[code]}))" if code in names else "(Some (OPass (mkBatch 987654 0 [] None)))"
 
 
 def c_logs(lg: list[tuple[bytes, bytes]]) -> str:
@@ -206,15 +208,6 @@ def view_of(variant: Any) -> tuple[Any, bool]:
                 for k in (K_LEVEL, K_MSG, K_LOC, b"vgi_rpc.request_id", b"vgi_rpc.server_id"):
                     if k in d and not utf8(d[k]):
                         dom = False
-                if K_LEVEL in d and K_MSG in d and K_EXTRA in d and b.num_rows == 0:
-                    try:
-                        ex = json.loads(d[K_EXTRA].decode())
-                        if not isinstance(ex, dict) or any(k in ("level", "message") for k in ex):
-                            dom = False
-                    except UnicodeDecodeError:
-                        dom = False
-                    except ValueError:
-                        pass
             items.append(a)
     except (OSError, pa.ArrowInvalid):
         items.append(None)
@@ -240,8 +233,6 @@ def classify_exc(e: BaseException) -> int:
     if isinstance(e, RpcError):
         return 2
     msg = str(e)
-    if isinstance(e, ValueError) and "is not a valid Level" in msg:
-        return 3
     for cls, prefix, code in ERR_PREFIX:
         if type(e) is cls and msg.startswith(prefix):
             return code
